@@ -30,6 +30,9 @@ ASSUMPTIONS = [
     'the host declares two enumeration types sharing an enumerator name (Color::Red, Mode::Red), two constant groups sharing a constant '
     'name with different types (K::TEN integer, L::TEN string) and a constant named like an enumerator (L::Red); the family "names" reads '
     'every ordered pair of these qualified names in one body; user data types defined over an enumeration are not part of the host',
+    'programs are printed on one line with single blanks, except the programs with elif clauses, which are also printed with a '
+    'line per statement and clause in equal, falling and rising columns (layouts lines, stairs, climb); layout in general is C06\'s '
+    'and C07\'s subject',
     'every translation runs on a copy-on-write snapshot (fork) of one pristine host per worker, verified consistent before use',
 ]
 
@@ -55,6 +58,43 @@ REQUIRED_FEATURES = [
   + ['unary:' + op for op in ('not', 'empty', 'not_empty', 'cardinality', '+', '-')]
 
 
+ELIF_LAYOUTS = ('lines', 'stairs', 'climb')
+
+
+def has_elif(stmts):
+    for st in stmts or ():
+        if not isinstance(st, (list, tuple)) or not st:
+            continue
+        if st[0] == 'if':
+            if len(st[3]) >= 1 or has_elif(st[2]) or has_elif(st[4]) or any(has_elif(b) for _, b in st[3]):
+                return True
+        elif st[0] == 'while' and has_elif(st[2]):
+            return True
+        elif st[0] == 'foreach' and has_elif(st[3]):
+            return True
+    return False
+
+
+def layout_tasks(tasks):
+    '''Round 7 (C05-13): the clauses of an if statement are found again by their source positions, so programs with
+    elif clauses are also translated from texts whose clauses start on other lines in smaller / larger / equal columns.'''
+    out, seen, n = [], set(), 0
+    for t in tasks:
+        if t['family'] != 'nesting' or not has_elif(t['stmts']):
+            continue
+        key = repr(H.tolist(t['stmts']))
+        if key in seen:
+            continue
+        home = H.HOMES[n % len(H.HOMES)]
+        if t['home'] != home:
+            continue
+        seen.add(key)
+        n += 1
+        for lay in ELIF_LAYOUTS:
+            out.append(dict(t, layout=lay))
+    return out
+
+
 def task_fn(ctx, task):
     if H.stopped():
         ctx.cap('stopped early after the first violations (VERIF_STOP_EARLY)')
@@ -68,6 +108,12 @@ def run_engine(ctx, fn):
     tasks, bounds = H.all_tasks(ctx.tier, ctx.seed)
     k = (ctx.seed * 97) % max(1, len(tasks))
     tasks = tasks[k:] + tasks[:k]
+    if PROP == 'c05':
+        extra = layout_tasks(tasks)
+        bounds['layouts'] = dict(programs_with_elif_clauses_under_other_layouts=len(extra), layouts=list(ELIF_LAYOUTS),
+                                 what='every program of the nesting family holding an if with elif clauses, in one home (rotating), '
+                                      'under each of these layouts; all other programs are printed on one line')
+        tasks = tasks + extra
     ctx.notes['bounds'] = bounds
     ctx.notes['tasks'] = len(tasks)
     # interleave so that every chunk mixes cheap and expensive programs
@@ -88,6 +134,8 @@ def guards(ctx, tasks):
     ctx.require(ctx.n('entry:action') > 0 and ctx.n('entry:model') > 0, 'one of the two prebuild entry points was never used')
     ctx.require(ctx.nd('states') == len(tasks) or ctx.caps_hit, 'not every task was run (%d of %d)' % (ctx.nd('states'), len(tasks)))
     ctx.require(ctx.n('family:names') >= 300, 'family names too small (%d)' % ctx.n('family:names'))
+    for lay in ELIF_LAYOUTS:
+        ctx.require(ctx.n('layout:' + lay) >= 100 or ctx.caps_hit, 'layout %s hardly used (%d)' % (lay, ctx.n('layout:' + lay)))
     for fam in ('statements', 'expressions', 'sequences', 'nesting'):
         ctx.require(ctx.n('family:' + fam) >= 500, 'family %s too small (%d)' % (fam, ctx.n('family:' + fam)))
 
